@@ -4,6 +4,12 @@
 // grammar x every request path of an exhaustive short-string alphabet plus paths derived from the
 // pattern's own text x the 8 routing configurations. The oracle runs inside the handler (so only
 // when the handler ran) and is three-valued; see ref.go for the reference side.
+//
+// Further dimensions (audit round, AUDIT.md): constraint spellings with capital letters and three
+// constraints per parameter (ref.go), REST-shaped patterns with prefix-sharing parameter names
+// (rest.go), variants of every execution — custom context, route registered through a mounted
+// sub-app or a group (forms.go) —, two-route apps whose middleware reads Params before and after
+// c.Next() (next.go), the documented short keys Params("*") / Params("+").
 package main
 
 import (
@@ -86,10 +92,20 @@ type patternX struct {
 	GenN int // generic paths: "/" followed by at most GenN symbols
 }
 
+var (
+	letterNames = []string{"p", "q", "r", "s", "t", "u", "v", "w"}
+	lateNames   = []string{"s", "t", "u", "v", "w"}
+	// names of several characters, each a prefix of the next one (family R)
+	wordNames = []string{"id", "idx", "idxy", "idxyz"}
+)
+
 func build(specs []tokSpec, family string, baseSigma []string, genN int) *patternX {
+	return buildNamed(specs, family, baseSigma, genN, letterNames)
+}
+
+func buildNamed(specs []tokSpec, family string, baseSigma []string, genN int, names []string) *patternX {
 	p := &patternX{GenN: genN}
 	p.Family = family
-	names := "pqrstuvw"
 	nNamed, nStar, nPlus := 0, 0, 0
 	syms := append([]string(nil), baseSigma...)
 	var b strings.Builder
@@ -105,7 +121,7 @@ func build(specs []tokSpec, family string, baseSigma []string, genN int) *patter
 			nPlus++
 			t.Text, t.Name = "+", fmt.Sprintf("+%d", nPlus)
 		case kNamed:
-			t.Name = names[nNamed : nNamed+1]
+			t.Name = names[nNamed]
 			nNamed++
 			t.Text = ":" + t.Name
 			if len(s.Cons) > 0 {
@@ -188,14 +204,16 @@ func hasParam(s []tokSpec) bool {
 type bounds struct {
 	A3n, A4n, A5n, Bn, B2n, Cn, Un int
 	Mn, MLn                        int // family M: ASCII patterns / patterns with a multi-byte literal
+	Rn                             int // family R
+	Nn                             int // family N (two-route apps)
 	MLits                          []string
 	BLits                          []string
 }
 
 func generate(quick bool) ([]*patternX, bounds) {
-	bd := bounds{A3n: 5, A4n: 5, A5n: 4, Bn: 4, B2n: 4, Cn: 4, Un: 4, Mn: 4, MLn: 3, MLits: mbLits, BLits: []string{"", "a", "ab", "A"}}
+	bd := bounds{A3n: 5, A4n: 5, A5n: 4, Bn: 4, B2n: 4, Cn: 4, Un: 4, Mn: 4, MLn: 3, Rn: 4, Nn: 3, MLits: mbLits, BLits: []string{"", "a", "ab", "A"}}
 	if quick {
-		bd = bounds{A3n: 4, A4n: 3, A5n: 3, Bn: 3, B2n: 3, Cn: 3, Un: 3, Mn: 3, MLn: 2, MLits: mbLits[:5], BLits: []string{"", "a", "ab", "A"}}
+		bd = bounds{A3n: 4, A4n: 3, A5n: 3, Bn: 3, B2n: 3, Cn: 3, Un: 3, Mn: 3, MLn: 2, Rn: 3, Nn: 2, MLits: mbLits[:5], BLits: []string{"", "a", "ab", "A"}}
 	}
 	var pats []*patternX
 	seen := map[string]bool{}
@@ -300,6 +318,9 @@ func generate(quick bool) ([]*patternX, bounds) {
 			pats = append(pats, p)
 		}
 	}, bd.MLits, bd.Mn, bd.MLn)
+
+	// R: REST-shaped patterns (rest.go); their texts differ from all others by the parameter names
+	generateREST(func(p *patternX) { pats = append(pats, p) }, bd.Rn, quick)
 	return pats, bd
 }
 
@@ -307,8 +328,13 @@ func generate(quick bool) ([]*patternX, bounds) {
 // request paths
 
 type pathSet struct {
-	uris []string // "http://h" + path
+	uris  []string // "http://h" + path
+	short []int    // indexes of the paths of at most shortGeneric symbols
 }
+
+// shortGeneric: apps that dispatch through a custom context get the generic paths of at most this many
+// symbols (and all pattern-derived paths)
+const shortGeneric = 1
 
 const uriPrefix = "http://h"
 
@@ -323,6 +349,9 @@ func genericPaths(sigma, n int) *pathSet {
 	syms := sigmas[sigma]
 	var rec func(p string, d int)
 	rec = func(p string, d int) {
+		if n-d <= shortGeneric {
+			ps.short = append(ps.short, len(ps.uris))
+		}
 		ps.uris = append(ps.uris, uriPrefix+p)
 		if d == 0 {
 			return
@@ -364,12 +393,15 @@ func inGeneric(syms []string, n int, path string) bool {
 
 // paramMenu lists the values a parameter takes in the instantiations of its pattern; mb adds the
 // multi-byte values of family M (in front, so that shortening a menu drops ASCII values first).
-func paramMenu(t token, mb bool) []string {
+func paramMenu(t token, mb, rest bool) []string {
 	pre := func(extra, m []string) []string {
 		if !mb {
 			return m
 		}
 		return append(append([]string(nil), extra...), m...)
+	}
+	if rest {
+		return restMenu(t)
 	}
 	switch t.Kind {
 	case kStar:
@@ -461,7 +493,7 @@ func derivedPaths(p *patternX) []string {
 	total := 1
 	for _, t := range p.Toks {
 		if t.isParam() {
-			m := paramMenu(t, mb)
+			m := paramMenu(t, mb, p.Family == "R")
 			menus = append(menus, m)
 			total *= len(m)
 		}
@@ -552,7 +584,21 @@ type exec struct {
 	vals []string
 
 	hasCons bool
+
+	custom        bool                // the app dispatches through a custom context (NewCtxFunc)
+	v             variant             // how the route was registered / dispatched (forms.go)
+	vi            int                 // index of the variant
+	failedDefault map[string]struct{} // signature+request of the violations seen in the plain variant
+	when          string              // family N: the moment of the reading (signature qualifier)
+	twoRoutes     bool                // family N
+	pair          *pairX
 }
+
+// customCtx is the smallest custom context an application can install with NewCtxFunc: it changes
+// nothing, but its requests are dispatched by the custom-context request handler.
+type customCtx struct{ fiber.DefaultCtx }
+
+const variantShift = 28 // case keys: the variant index sits above the request index
 
 func regName(use bool) string {
 	if use {
@@ -566,7 +612,8 @@ func (e *exec) key() uint64 {
 	if e.use {
 		u = 1
 	}
-	return uint64(e.pi)<<40 | u<<39 | uint64(e.ci)<<36 | uint64(e.idx)
+	k := uint64(e.pi)<<40 | u<<39 | uint64(e.ci)<<36 | uint64(e.idx)
+	return k | uint64(e.vi)<<variantShift
 }
 
 // pathClass tells whether the request path spells the pattern itself.
@@ -593,13 +640,37 @@ func (e *exec) pathClass(path string) string {
 }
 
 func (e *exec) caseDoc(seen string) map[string]any {
-	return map[string]any{"pattern": show(e.p.Text), "registration": regName(e.use), "config": map[string]bool{"CaseSensitive": e.cfg.CaseSensitive, "StrictRouting": e.cfg.Strict, "UnescapePath": e.cfg.Unescape},
+	m := map[string]any{"pattern": show(e.p.Text), "registration": regName(e.use), "config": map[string]bool{"CaseSensitive": e.cfg.CaseSensitive, "StrictRouting": e.cfg.Strict, "UnescapePath": e.cfg.Unescape},
 		"request": "GET " + show(e.uri[len(uriPrefix):]), "path_seen_by_handler": show(seen), "family": e.p.Family}
+	if e.custom {
+		m["context"] = "custom context installed with app.NewCtxFunc"
+	}
+	if e.v.form != formDirect {
+		m["registration"] = e.v.describe(e.p)
+	}
+	return m
 }
 
 func (e *exec) violate(sig, what, seen string, observed map[string]any, expected string) {
 	seenC := strings.Clone(seen)
-	e.vs.add(sig, e.key(), what, func() (any, any, any) { return e.caseDoc(seenC), observed, expected })
+	if e.failedDefault != nil {
+		// a violation the plain variant shows too is reported once, from there; what only the
+		// custom-context dispatch / the other registration form shows is marked
+		k := sig + "\x00" + e.uri
+		if e.v.plain() {
+			e.failedDefault[k] = struct{}{}
+		} else {
+			if _, both := e.failedDefault[k]; both {
+				return
+			}
+			sig += e.v.suffix()
+		}
+	}
+	mk := func() (any, any, any) { return e.caseDoc(seenC), observed, expected }
+	if e.twoRoutes {
+		mk = func() (any, any, any) { return e.pairDoc(seenC), observed, expected }
+	}
+	e.vs.add(sig, e.key(), what, mk)
 }
 
 // nextClass names what follows parameter token ti in the pattern: end, param, lit1 (a literal of
@@ -701,17 +772,36 @@ func (e *exec) judge(c fiber.Ctx) {
 	// (whatever the pattern); other requests are classified by the detail of the failing clause.
 	// Paths holding non-ASCII bytes are further classified by the kind of text (mb.go textClass).
 	sig := func(clause, detail string) string {
-		if pclass() != "other" {
-			return "handler-ran-on-own-pattern-text clause=" + clause + " reg=" + reg + " path=" + pclass() + textClass(path)
+		if e.when == whenAfterNext {
+			// one class per clause: whatever the later attempt left behind, the cause is the same
+			return clause + " reg=" + reg + e.when
 		}
-		return clause + " " + detail + " reg=" + reg + " path=other" + textClass(path)
+		if pclass() != "other" {
+			return "handler-ran-on-own-pattern-text clause=" + clause + " reg=" + reg + " path=" + pclass() + textClass(path) + e.when
+		}
+		return clause + " " + detail + " reg=" + reg + " path=other" + textClass(path) + e.when
 	}
 	// (4) Route().Path is the registered pattern
 	if rp := c.Route().Path; rp != p.Text {
 		e.violate(sig("route-path-differs", "shape=["+p.skeleton()+"]"), "Route().Path inside the handler is not the registered pattern", path, obs(), p.Text)
 	}
-	// (2) and (3) per value
+	// the documented short keys: Params("*") / Params("+") name the first wildcard / plus parameter
 	k := 0
+	for _, t := range p.Toks {
+		if !t.isParam() {
+			continue
+		}
+		if t.Name == "*1" || t.Name == "+1" {
+			if sv := c.Params(t.Name[:1]); sv != vals[k] {
+				o := obs()
+				o["Params("+t.Name[:1]+")"] = show(sv)
+				e.violate(sig("short-key-reports-another-value", "key="+t.Name[:1]), "Params(\""+t.Name[:1]+"\") and Params(\""+t.Name+"\") report different values", path, o, "the value of "+t.Name)
+			}
+		}
+		k++
+	}
+	// (2) and (3) per value
+	k = 0
 	empties := false
 	for ti, t := range p.Toks {
 		if !t.isParam() {
@@ -797,7 +887,7 @@ func unescapedView(raw string, unescape bool) (string, bool) {
 	if i := strings.IndexAny(raw, "?#"); i >= 0 {
 		raw = raw[:i]
 	}
-	if unescape && strings.ContainsAny(raw, "%+") {
+	if unescape && strings.IndexByte(raw, '%') >= 0 {
 		return raw, false // decoding rules are fasthttp's business: not predicted here
 	}
 	return raw, true
@@ -851,137 +941,186 @@ func runPattern(pi int, p *patternX, l *core.Local, vs vset, sample func(string,
 	var fctx fasthttp.RequestCtx
 	for _, use := range []bool{false, true} {
 		for ci, cfg := range cfgs {
-			e := &exec{l: l, vs: vs, p: p, pi: pi, use: use, cfg: cfg, ci: ci, hasCons: hasCons}
-			app := fiber.New(fiber.Config{CaseSensitive: cfg.CaseSensitive, StrictRouting: cfg.Strict, UnescapePath: cfg.Unescape})
-			app.RegisterCustomConstraint(oddConstraint{})
-			app.RegisterCustomConstraint(multConstraint{})
-			h := func(c fiber.Ctx) error { e.judge(c); return nil }
-			var handler fasthttp.RequestHandler
-			func() {
-				defer func() {
-					if r := recover(); r != nil {
-						l.Outcome("registration-panic")
-						l.Add("registration_panics", 1)
-						handler = nil
-					}
+			failedDefault := map[string]struct{}{}
+			for vi, v := range variants(p, use) {
+				custom := v.custom
+				reduced := !v.plain() // the variants get the derived paths and the short generic paths
+				e := &exec{l: l, vs: vs, p: p, pi: pi, use: use, cfg: cfg, ci: ci, hasCons: hasCons, custom: custom, v: v, vi: vi, failedDefault: failedDefault}
+				h := func(c fiber.Ctx) error { e.judge(c); return nil }
+				var handler fasthttp.RequestHandler
+				func() {
+					defer func() {
+						if r := recover(); r != nil {
+							l.Outcome("registration-panic")
+							l.Add("registration_panics", 1)
+							handler = nil
+						}
+					}()
+					handler = buildVariant(v, p, cfg, use, h).Handler()
 				}()
-				if use {
-					app.Use(p.Text, h)
-				} else {
-					app.Get(p.Text, h)
-				}
-				handler = app.Handler()
-			}()
-			if handler == nil {
-				continue
-			}
-			l.Add("apps", 1)
-			first := true
-			nGen := len(gen.uris)
-			nRaw := nGen + len(derURIs)
-			nAll := nRaw
-			if cfg.Unescape {
-				nAll += len(encURIs)
-			}
-			for idx := 0; idx < nAll; idx++ {
-				encView := ""
-				switch {
-				case idx < nGen:
-					e.uri = gen.uris[idx]
-				case idx < nRaw:
-					e.uri = derURIs[idx-nGen]
-				default:
-					e.uri = encURIs[idx-nRaw]
-					if encPred[idx-nRaw] {
-						encView = encViews[idx-nRaw]
-					}
-				}
-				e.idx = idx
-				e.ran = false
-				panicked := serve(&fctx, handler, e.uri, first)
-				first = false
-				l.Add("evaluations", 1)
-				mbReq := idx >= nRaw || (mb && !isASCII(e.uri))
-				if mbReq {
-					l.Add("requests_with_multibyte_text", 1)
-				}
-				sampleNow := sample != nil && (pi*31+idx)%sampleEvery == 0 && ci == 1
-				if mb { // samples of family M show multi-byte text, in the configuration that folds case
-					sampleNow = sample != nil && mbReq && ci == 4 && idx%7 == 0
-				}
-				if panicked != "" {
-					// neither the handler nor the not-found handling: the request crashed the router
-					// (fasthttp does not recover panics: the server process would die)
-					l.Add("nontrivial", 1)
-					l.Outcome("panic while routing")
-					tc := textClass(e.uri[len(uriPrefix):])
-					if idx >= nRaw {
-						tc = textClass(encViews[idx-nRaw]) + " percent-encoded"
-					}
-					e.violate("routing-panicked reg="+regName(use)+" ran-handler="+fmt.Sprint(e.ran)+tc,
-						"the request made the router panic: it got neither the handler nor the not-found handling", "",
-						map[string]any{"panic": panicked}, "handler (with Params that reproduce the path) or 404")
-					first = true // start again on a fresh connection
+				if handler == nil {
 					continue
 				}
-				status := fctx.Response.StatusCode()
-				if e.ran {
-					l.Add("nontrivial", 1)
-					l.Add("handler_ran", 1)
-					l.Outcome("ran reg=" + regName(use) + " " + e.cls)
-					if status != 200 {
-						l.Outcome(fmt.Sprintf("ran-but-status=%d", status))
+				l.Add("apps", 1)
+				first := true
+				nGen := len(gen.uris)
+				nRaw := nGen + len(derURIs)
+				nAll := nRaw
+				if cfg.Unescape {
+					nAll += len(encURIs)
+				}
+				nReq := nAll
+				if reduced {
+					nReq = nAll - nGen + len(gen.short)
+				}
+				if custom {
+					l.Add("apps_custom_ctx", 1)
+				}
+				if v.form != formDirect {
+					l.Add("apps_mounted_or_group", 1)
+				}
+				for ri := 0; ri < nReq; ri++ {
+					idx := ri
+					if reduced {
+						// the short generic paths, then everything that is not generic
+						if ri < len(gen.short) {
+							idx = gen.short[ri]
+						} else {
+							idx = ri - len(gen.short) + nGen
+						}
 					}
+					encView := ""
+					switch {
+					case idx < nGen:
+						e.uri = gen.uris[idx]
+					case idx < nRaw:
+						e.uri = derURIs[idx-nGen]
+					default:
+						e.uri = encURIs[idx-nRaw]
+						if encPred[idx-nRaw] {
+							encView = encViews[idx-nRaw]
+						}
+					}
+					e.idx = idx
+					e.ran = false
+					panicked := serve(&fctx, handler, e.uri, first)
+					first = false
+					l.Add("evaluations", 1)
+					mbReq := idx >= nRaw || (mb && !isASCII(e.uri))
 					if mbReq {
-						l.Add("handler_ran_on_multibyte_text", 1)
+						l.Add("requests_with_multibyte_text", 1)
 					}
-					if sampleNow {
-						m := map[string]any{"pattern": show(p.Text), "reg": regName(use), "config": cfg.String(), "request": show(e.uri[len(uriPrefix):]), "class": "handler ran: " + e.cls}
-						k := 0
-						for _, t := range p.Toks {
-							if t.isParam() {
-								m["Params("+t.Name+")"] = show(e.vals[k])
-								k++
+					sampleNow := sample != nil && (pi*31+idx)%sampleEvery == 0 && ci == 1
+					if mb { // samples of family M show multi-byte text, in the configuration that folds case
+						sampleNow = sample != nil && mbReq && ci == 4 && idx%7 == 0
+					}
+					sampleNow = sampleNow && !reduced
+					if custom {
+						l.Add("evaluations_custom_ctx", 1)
+					}
+					if v.form != formDirect {
+						l.Add("evaluations_mounted_or_group", 1)
+					}
+					if panicked != "" {
+						// neither the handler nor the not-found handling: the request crashed the router
+						// (fasthttp does not recover panics: the server process would die)
+						l.Add("nontrivial", 1)
+						l.Outcome("panic while routing")
+						tc := textClass(e.uri[len(uriPrefix):])
+						if idx >= nRaw {
+							tc = textClass(encViews[idx-nRaw]) + " percent-encoded"
+						}
+						e.idx = idx
+						e.violate("routing-panicked reg="+regName(use)+" ran-handler="+fmt.Sprint(e.ran)+tc,
+							"the request made the router panic: it got neither the handler nor the not-found handling", "",
+							map[string]any{"panic": panicked}, "handler (with Params that reproduce the path) or 404")
+						first = true // start again on a fresh connection
+						continue
+					}
+					status := fctx.Response.StatusCode()
+					if e.ran {
+						l.Add("nontrivial", 1)
+						l.Add("handler_ran", 1)
+						if custom {
+							l.Add("handler_ran_custom_ctx", 1)
+						}
+						if v.form == formMountRoot || v.form == formMountSplit {
+							l.Add("handler_ran_mounted", 1)
+						}
+						if v.form == formGroupSplit {
+							l.Add("handler_ran_group", 1)
+						}
+						l.Outcome("ran reg=" + regName(use) + " " + e.cls)
+						if status != 200 {
+							l.Outcome(fmt.Sprintf("ran-but-status=%d", status))
+						}
+						if mbReq {
+							l.Add("handler_ran_on_multibyte_text", 1)
+						}
+						if sampleNow {
+							m := map[string]any{"pattern": show(p.Text), "reg": regName(use), "config": cfg.String(), "request": show(e.uri[len(uriPrefix):]), "class": "handler ran: " + e.cls}
+							k := 0
+							for _, t := range p.Toks {
+								if t.isParam() {
+									m["Params("+t.Name+")"] = show(e.vals[k])
+									k++
+								}
+							}
+							sample(p.Family+" ran", m)
+						}
+						continue
+					}
+					// handler did not run
+					definitelyInvalid := false
+					if hasCons && (idx >= nGen || status != fiber.StatusNotFound) {
+						view, ok := unescapedView(e.uri[len(uriPrefix):], cfg.Unescape)
+						if !ok && encView != "" {
+							view, ok = encView, true // %XX of a byte >= 0x80 decodes to that byte: nothing to dispute
+						}
+						if !ok {
+							l.Add("unspecified_skipped", 1)
+						} else if p.exists(view, cfg, use, false, 0) && !p.exists(view, cfg, use, true, 1) {
+							// (5) the request fills the pattern, but only with a value some constraint definitely rejects
+							definitelyInvalid = true
+							l.Add("nontrivial", 1)
+							l.Add("invalid_value_requests", 1)
+							if status != fiber.StatusNotFound {
+								e.violate(fmt.Sprintf("constraint-violating-request-not-404 status=%d reg=%s shape=[%s]", status, regName(use), p.skeleton()),
+									"a request whose value violates a constraint did not get the not-found handling", view,
+									map[string]any{"status": status, "body": string(fctx.Response.Body())}, "404")
 							}
 						}
-						sample(p.Family+" ran", m)
 					}
-					continue
-				}
-				// handler did not run
-				definitelyInvalid := false
-				if hasCons && (idx >= nGen || status != fiber.StatusNotFound) {
-					view, ok := unescapedView(e.uri[len(uriPrefix):], cfg.Unescape)
-					if !ok && encView != "" {
-						view, ok = encView, true // %XX of a byte >= 0x80 decodes to that byte: nothing to dispute
-					}
-					if !ok {
-						l.Add("unspecified_skipped", 1)
-					} else if p.exists(view, cfg, use, false, 0) && !p.exists(view, cfg, use, true, 1) {
-						// (5) the request fills the pattern, but only with a value some constraint definitely rejects
-						definitelyInvalid = true
-						l.Add("nontrivial", 1)
-						l.Add("invalid_value_requests", 1)
-						if status != fiber.StatusNotFound {
-							e.violate(fmt.Sprintf("constraint-violating-request-not-404 status=%d reg=%s shape=[%s]", status, regName(use), p.skeleton()),
-								"a request whose value violates a constraint did not get the not-found handling", view,
-								map[string]any{"status": status, "body": string(fctx.Response.Body())}, "404")
+					switch {
+					case definitelyInvalid:
+						if sampleNow {
+							sample(p.Family+" rejected", map[string]any{"pattern": show(p.Text), "reg": regName(use), "config": cfg.String(), "request": show(e.uri[len(uriPrefix):]),
+								"class": fmt.Sprintf("handler did not run, status %d; reference: only constraint-violating values fill the pattern", status)})
 						}
+						l.Outcome(fmt.Sprintf("not-run status=%d constraint-violating-request", status))
+					default:
+						l.Outcome(fmt.Sprintf("not-run status=%d", status))
 					}
-				}
-				switch {
-				case definitelyInvalid:
-					if sampleNow {
-						sample(p.Family+" rejected", map[string]any{"pattern": show(p.Text), "reg": regName(use), "config": cfg.String(), "request": show(e.uri[len(uriPrefix):]),
-							"class": fmt.Sprintf("handler did not run, status %d; reference: only constraint-violating values fill the pattern", status)})
-					}
-					l.Outcome(fmt.Sprintf("not-run status=%d constraint-violating-request", status))
-				default:
-					l.Outcome(fmt.Sprintf("not-run status=%d", status))
 				}
 			}
 		}
 	}
+}
+
+// newApp makes the app of one execution: the routing configuration, the custom constraints and,
+// for custom, a custom context (NewCtxFunc) so that requests take the custom-context dispatch.
+func newApp(cfg config, custom bool) *fiber.App {
+	app := fiber.New(fiber.Config{CaseSensitive: cfg.CaseSensitive, StrictRouting: cfg.Strict, UnescapePath: cfg.Unescape})
+	if custom {
+		app.NewCtxFunc(func(a *fiber.App) fiber.CustomCtx {
+			return &customCtx{DefaultCtx: *fiber.NewDefaultCtx(a)}
+		})
+	}
+	app.RegisterCustomConstraint(oddConstraint{})
+	app.RegisterCustomConstraint(multConstraint{})
+	app.RegisterCustomConstraint(isOddConstraint{})
+	app.RegisterCustomConstraint(inConstraint{})
+	return app
 }
 
 func main() {
@@ -991,6 +1130,7 @@ func main() {
 	limitFlag := flag.Duration("limit", 0, "debug: override the internal wall-clock cap")
 	r := core.Start("C02")
 	pats, bd := generate(r.Quick())
+	pairs := generatePairs(bd.Nn, r.Quick())
 	if *only != "" {
 		var f []*patternX
 		for _, p := range pats {
@@ -999,6 +1139,7 @@ func main() {
 			}
 		}
 		pats = f
+		pairs = nil
 	}
 	if *famFlag != "" {
 		var f []*patternX
@@ -1008,19 +1149,29 @@ func main() {
 			}
 		}
 		pats = f
+		if !strings.Contains(","+*famFlag+",", ",N,") {
+			pairs = nil
+		}
 	}
 	fam := map[string]int{}
 	for _, p := range pats {
 		fam[p.Family]++
 
 	}
+	if len(pairs) > 0 {
+		fam["N (pairs)"] = len(pairs)
+	}
 	if *list {
 		for _, p := range pats {
 			fmt.Printf("%-3s n=%d sigma=%d %s\n", p.Family, p.GenN, p.Sigma, p.Text)
 		}
+		for _, p := range pairs {
+			fmt.Printf("N   USE %s + GET %s\n", p.mw.Text, p.ep.Text)
+		}
 		fmt.Println(fam)
 		return
 	}
+	nItems := len(pats) + len(pairs)
 	limit := 40 * time.Minute
 	if r.Quick() {
 		limit = 10 * time.Minute
@@ -1038,7 +1189,7 @@ func main() {
 		vs := vset{}
 		var sample func(string, any)
 		if r.Worker == 0 { // only one worker samples: one case per family and kind, in exploration order
-			want := map[string]bool{"A3 ran": true, "A5 ran": true, "B ran": true, "B rejected": true, "C ran": true, "U ran": true, "M ran": true, "M rejected": true, "ML ran": true}
+			want := map[string]bool{"A3 ran": true, "A5 ran": true, "B ran": true, "B rejected": true, "C ran": true, "U ran": true, "M ran": true, "M rejected": true, "ML ran": true, "R ran": true, "N ran": true, "N after": true}
 			sample = func(k string, v any) {
 				if want[k] {
 					want[k] = false
@@ -1046,7 +1197,7 @@ func main() {
 				}
 			}
 		}
-		for i := range pats {
+		for i := 0; i < nItems; i++ {
 			if !r.Shard(i) {
 				continue
 			}
@@ -1055,7 +1206,11 @@ func main() {
 				l.Add("patterns_skipped_by_cap", 1)
 				continue
 			}
-			runPattern(i, pats[i], l, vs, sample)
+			if i < len(pats) {
+				runPattern(i, pats[i], l, vs, sample)
+			} else {
+				runPair(i, pairs[i-len(pats)], l, vs, sample)
+			}
 		}
 		r.Merge(l.P)
 		b, err := json.Marshal(vs)
@@ -1071,8 +1226,8 @@ func main() {
 	if nw > 16 {
 		nw = 16
 	}
-	if nw > len(pats) {
-		nw = len(pats)
+	if nw > nItems {
+		nw = nItems
 	}
 	var extra []string
 	if *only != "" {
@@ -1105,6 +1260,15 @@ func main() {
 		}
 		all.merge(vs)
 		_ = os.Remove(f)
+	}
+	// a violation seen in the endpoint of a two-route app that single-route apps report too is the same finding
+	for s, v := range all {
+		if stem, ok := strings.CutSuffix(s, whenAfterAttempt); ok {
+			if w, both := all[stem]; both {
+				w.Count += v.Count
+				delete(all, s)
+			}
+		}
 	}
 	sigs := make([]string, 0, len(all))
 	for s := range all {
@@ -1142,14 +1306,24 @@ func main() {
 			"unspecified_skipped":           r.P.Counters["unspecified_skipped"],
 			"requests_with_multibyte_text":  r.P.Counters["requests_with_multibyte_text"],
 			"handler_ran_on_multibyte_text": r.P.Counters["handler_ran_on_multibyte_text"],
-			"rule":                          "one evaluation = one GET request to a fresh single-route app: every pattern of the token grammar (families A3/A4/A5 unconstrained shapes, B one constrained parameter at every named position, B2 two constrained parameters, C escaped characters, U percent-encoded alphabet, M the ASCII shapes of U plus <int>/<alpha> over an alphabet of multi-byte UTF-8 text, ML the same shapes with a multi-byte literal segment in the pattern) x registration {app.Get, app.Use} x 8 configs {CaseSensitive,StrictRouting,UnescapePath} x every request path of the family alphabet ('/' followed by <= n symbols) plus the pattern-derived paths (own text raw/unescaped/upper/lower/'?'->%3F, every one-character deletion and one-symbol insertion of it, every instantiation of the pattern with per-parameter value menus incl. valid/invalid/unspecified constraint exemplars and the parameter's own spelling). Families M/ML: the alphabet, the inserted symbols and the value menus hold one representative of every class of byte-level hazard (2-byte letters with a same-length case partner, letters whose case mapping changes the encoded length in either direction, 3- and 4-byte code points without case, bytes that are not UTF-8), sent raw and, under UnescapePath, also percent-encoded. All (pattern, registration, config, path) tuples are distinct by construction. A case is non-trivial when the handler ran (the in-handler oracle was evaluated) or when the reference classified the request as carrying only constraint-violating values (404 clause evaluated); both are counted in the loop.",
+			"evaluations_custom_ctx":        r.P.Counters["evaluations_custom_ctx"],
+			"handler_ran_custom_ctx":        r.P.Counters["handler_ran_custom_ctx"],
+			"evaluations_two_routes":        r.P.Counters["evaluations_two_routes"],
+			"evaluations_mounted_or_group":  r.P.Counters["evaluations_mounted_or_group"],
+			"handler_ran_mounted":           r.P.Counters["handler_ran_mounted"],
+			"handler_ran_group":             r.P.Counters["handler_ran_group"],
+			"after_next_judged":             r.P.Counters["after_next_judged"],
+			"rule":                          "one evaluation = one GET request to a fresh single-route app: every pattern of the token grammar (families A3/A4/A5 unconstrained shapes, B one constrained parameter at every named position, B2 two constrained parameters, C escaped characters, U percent-encoded alphabet, M the ASCII shapes of U plus <int>/<alpha> over an alphabet of multi-byte UTF-8 text, ML the same shapes with a multi-byte literal segment in the pattern, R REST shapes: two parameters (constrained, unconstrained, optional, greedy) around a literal segment such as /a/ or -a-, parameter names of several characters that are prefixes of each other) x registration {app.Get, app.Use} x 8 configs {CaseSensitive,StrictRouting,UnescapePath} x every request path of the family alphabet ('/' followed by <= n symbols) plus the pattern-derived paths (own text raw/unescaped/upper/lower/'?'->%3F, every one-character deletion and one-symbol insertion of it, every instantiation of the pattern with per-parameter value menus incl. valid/invalid/unspecified constraint exemplars and the parameter's own spelling). Families M/ML: the alphabet, the inserted symbols and the value menus hold one representative of every class of byte-level hazard (2-byte letters with a same-length case partner, letters whose case mapping changes the encoded length in either direction, 3- and 4-byte code points without case, bytes that are not UTF-8), sent raw and, under UnescapePath, also percent-encoded. Constraint spellings include capital letters (custom constraint name, custom constraint argument, regex class, datetime layout) and three constraints on one parameter. Every app of the families other than M/ML is built a second time with a custom context (app.NewCtxFunc: custom-context dispatch) and receives the pattern-derived paths and the generic paths of at most 1 symbol; what only that dispatch shows is marked ctx=custom-only. The app.Get executions of families A3, B (2-token shapes, all constraint lists), B2, C and R are repeated, on the same reduced path set, with the route registered through a sub-app mounted at '/', through a sub-app mounted under every prefix of the pattern that ends before a '/' token (the sub-app registers the rest and owns the custom constraints; mount prefixes with parameters included) and through app.Group(prefix).Get(rest); what only such a registration shows is marked registered-by=mounted-sub-app-only / group-only. The documented short keys Params('*')/Params('+') are read next to *1/+1 on every handler run. Family N: two-route apps, app.Use(parameterised pattern) whose handler reads its parameters, calls c.Next() and reads them again, followed by app.Get(another parameterised pattern), every middleware pattern x every endpoint pattern of the family x 8 configs x (generic paths + the derived paths of both patterns); the endpoint's handler is judged after the attempt of the middleware's pattern on the same request, the middleware's second reading is judged when no later route matched (c.Route() unchanged) and counted unspecified otherwise. All (app, config, context kind, path) tuples are distinct by construction. A case is non-trivial when the handler ran (the in-handler oracle was evaluated) or when the reference classified the request as carrying only constraint-violating values (404 clause evaluated); both are counted in the loop.",
 			"bounds": map[string]any{
 				"tier":                 r.Tier,
 				"patterns":             len(pats),
 				"patterns_per_family":  famDoc,
-				"max_tokens":           map[string]int{"A3": 3, "A4": 4, "A5": 5, "B": 3, "B2": 4, "C": 3, "U": 3, "M": 3, "ML": 3},
-				"generic_path_symbols": map[string]int{"A3": bd.A3n, "A4": bd.A4n, "A5": bd.A5n, "B": bd.Bn, "B2": bd.B2n, "C": bd.Cn, "U": bd.Un, "M": bd.Mn, "ML": bd.MLn},
-				"alphabets":            map[string]any{"base": baseSyms, "escape_family": escSyms, "percent_family": pctSyms, "multibyte_families": showAll(mbSyms), "multibyte_pattern_literals": showAll(bd.MLits), "constraint_extra_symbols": "bool:true guid:valid+truncated min/range:3 datetime:2024-02-29,2023-02-29"},
+				"max_tokens":           map[string]int{"A3": 3, "A4": 4, "A5": 5, "B": 3, "B2": 4, "C": 3, "U": 3, "M": 3, "ML": 3, "R": 5, "N": 3},
+				"generic_path_symbols": map[string]int{"A3": bd.A3n, "A4": bd.A4n, "A5": bd.A5n, "B": bd.Bn, "B2": bd.B2n, "C": bd.Cn, "U": bd.Un, "M": bd.Mn, "ML": bd.MLn, "R": bd.Rn, "N": bd.Nn},
+				"context_kinds":        "default context; custom context (NewCtxFunc) for all families but M/ML on the derived paths and generic paths of <= 1 symbol",
+				"registration_forms":   "app.Get, app.Use; for families A3, B (2 tokens), B2, C, R also: sub-app mounted at '/', sub-app mounted under a prefix of the pattern, app.Group(prefix).Get(rest), on the derived paths and generic paths of <= 1 symbol",
+				"two_route_apps":       map[string]int{"pairs": len(pairs)},
+				"alphabets":            map[string]any{"rest_family": restSyms, "base": baseSyms, "escape_family": escSyms, "percent_family": pctSyms, "multibyte_families": showAll(mbSyms), "multibyte_pattern_literals": showAll(bd.MLits), "constraint_extra_symbols": "bool:true guid:valid+truncated min/range:3 datetime:2024-02-29,2023-02-29"},
 				"literals":             map[string]any{"A3": []string{"", "a", "ab", "A"}, "A4": []string{"", "a"}, "A5": []string{""}, "B": bd.BLits},
 				"constraints":          consNames,
 				"excluded_adjacency":   "named parameter directly followed by '*'/'+', and '+' directly followed by a parameter (reading not fixed by the docs)",
@@ -1157,6 +1331,9 @@ func main() {
 			},
 		},
 		Assumptions: []string{
+			"a middleware that reads Params after c.Next() returned is still 'a handler that runs'; when no later route matched, c.Route() still names its own route and the values must still be the ones its pattern cuts out of the path; when a later route matched, Route()/Params speak about that route (documented) and the reading is not judged",
+			"custom constraints are registered on the app that declares the route (the sub-app, when the route is registered through a mounted sub-app)",
+			"the meaning of a constraint does not depend on CaseSensitive: a custom constraint name, a regular expression, a datetime layout and constraint arguments keep the letters the application wrote",
 			"handler-level drive: app.Handler() on a fake connection (fx.CallInto for the first request of each app, later requests reuse that RequestCtx like keep-alive requests); 16 single-threaded worker processes (GOMAXPROCS=1) so that the pooled fiber context, whose parameter values survive failed match attempts, is the same object for every request of an app",
 			"the request path is what the handler sees through Path() (PathOriginal, percent-decoded when UnescapePath); fasthttp's URI splitting/decoding is not re-checked",
 			"case folding: the statement does not say which letters fold; the reconstruction clause accepts the most tolerant reading (simple Unicode case folding, rune by rune; bytes that are not UTF-8 stand for themselves), the 404 clause demands only what the ASCII reading and the Unicode reading agree on",
@@ -1167,8 +1344,10 @@ func main() {
 		},
 		MinOutcomes: 4,
 	}
-	if r.P.Counters["handler_ran"] == 0 || (*only == "" && *famFlag == "" && (r.P.Counters["invalid_value_requests"] == 0 || r.P.Counters["handler_ran_on_multibyte_text"] == 0)) {
-		core.Fatal("vacuous: handler_ran=%d invalid_value_requests=%d handler_ran_on_multibyte_text=%d", r.P.Counters["handler_ran"], r.P.Counters["invalid_value_requests"], r.P.Counters["handler_ran_on_multibyte_text"])
+	if r.P.Counters["handler_ran"] == 0 || (*only == "" && *famFlag == "" && (r.P.Counters["invalid_value_requests"] == 0 || r.P.Counters["handler_ran_on_multibyte_text"] == 0 ||
+		r.P.Counters["handler_ran_custom_ctx"] == 0 || r.P.Counters["handler_ran_mounted"] == 0 || r.P.Counters["handler_ran_group"] == 0 || r.P.Counters["after_next_judged"] == 0 || r.P.Counters["endpoint_ran_after_failed_attempt_of_middleware_pattern"] == 0)) {
+		core.Fatal("vacuous: handler_ran=%d invalid_value_requests=%d handler_ran_on_multibyte_text=%d handler_ran_custom_ctx=%d after_next_judged=%d endpoint_ran_after_failed_attempt_of_middleware_pattern=%d", r.P.Counters["handler_ran"], r.P.Counters["invalid_value_requests"], r.P.Counters["handler_ran_on_multibyte_text"],
+			r.P.Counters["handler_ran_custom_ctx"], r.P.Counters["after_next_judged"], r.P.Counters["endpoint_ran_after_failed_attempt_of_middleware_pattern"])
 	}
 	r.Finish(ev)
 }
